@@ -483,6 +483,12 @@ class ProgGen:
         if r.random() < 0.3:
             arms.reverse()
             self.forms.add("match_reversed")
+        if r.random() < 0.25:
+            # a parenthesised scrutinee: `match (x) {` must not be read as a call of something named `match`
+            self.forms.add("match_paren_scrutinee")
+            s = "(%s)" % s
+            if r.random() < 0.5:
+                return "match%s { %s %s }" % (s, arms[0], arms[1])
         return "match %s { %s %s }" % (s, arms[0], arms[1])
 
     # ------------------------------------------------------------ items
